@@ -150,6 +150,34 @@ func (ms *modelSession) readSexpr() (string, error) {
 	}
 }
 
+// refine asks for a model that also satisfies the extra constraints; it keeps the old model
+// (re-established by a second check-sat) when there is none.
+func (ms *modelSession) refine(constraints []string) bool {
+	fmt.Fprintf(ms.in, "(push 1)\n")
+	for _, c := range constraints {
+		fmt.Fprintf(ms.in, "(assert %s)\n", c)
+	}
+	fmt.Fprintf(ms.in, "(check-sat)\n")
+	readAns := func(d time.Duration) string {
+		for i := 0; i < 8; i++ {
+			line, err := ms.readLineTimeout(d)
+			if err != nil {
+				return ""
+			}
+			if t := strings.TrimSpace(line); t != "" {
+				return t
+			}
+		}
+		return ""
+	}
+	if readAns(20*time.Second) == "sat" {
+		return true
+	}
+	fmt.Fprintf(ms.in, "(pop 1)\n(check-sat)\n")
+	readAns(30 * time.Second)
+	return false
+}
+
 // evalTerm returns the model value text of term.
 func (ms *modelSession) evalTerm(term string) (string, error) {
 	fmt.Fprintf(ms.in, "(get-value (%s))\n", term)
@@ -243,6 +271,11 @@ type rbuilder struct {
 	typeByID map[int]types.Type
 	gByAddr  map[string]*ssa.Global
 	strByID  map[string]string
+	refined  bool
+	pins     []string // address terms pinned to their model values when asking for a smaller model
+	sizeTerms []string // terms denoting slice lengths / capacities and map lengths met while building
+	stubs    map[string]types.Type // stub type name -> interface type
+	stubOrder []string
 }
 
 type rslice struct {
@@ -364,6 +397,17 @@ func (b *rbuilder) evalBool(term string) bool {
 	return strings.TrimSpace(v) == "true"
 }
 
+func (b *rbuilder) pin(term string, val *big.Int) {
+	if isLiteral(term) || !b.relevant(term) {
+		return
+	}
+	v := val.String()
+	if val.Sign() < 0 {
+		v = "(- " + new(big.Int).Neg(val).String() + ")"
+	}
+	b.pins = append(b.pins, fmt.Sprintf("(= %s %s)", term, v))
+}
+
 func (b *rbuilder) fresh(prefix string) string {
 	b.n++
 	if b.n > 400 {
@@ -435,16 +479,18 @@ func (b *rbuilder) valExpr(v *Val, t types.Type, depth int) string {
 		switch u := t.Underlying().(type) {
 		case *types.Pointer:
 			a := b.evalInt(v.S[0])
+			b.pin(v.S[0], a)
 			if a.Sign() == 0 {
 				return ""
 			}
 			return b.obj(u.Elem(), a, v.Comp, depth)
 		case *types.Map:
 			a := b.evalInt(v.S[0])
+			b.pin(v.S[0], a)
 			if a.Sign() == 0 {
 				return ""
 			}
-			return b.mapObj(t, u, a, depth)
+			return b.mapObj(t, u, a, depth, v.S[0])
 		case *types.Chan, *types.Signature:
 			return ""
 		case *types.Basic:
@@ -495,7 +541,11 @@ func (b *rbuilder) obj(et types.Type, addr *big.Int, comp string, depth int) str
 }
 
 func (b *rbuilder) sliceExpr(v *Val, t types.Type, depth int) string {
+	if b.relevant(v.S[1]) && !isLiteral(v.S[1]) {
+		b.sizeTerms = append(b.sizeTerms, v.S[1])
+	}
 	ptr := b.evalInt(v.S[0])
+	b.pin(v.S[0], ptr)
 	ln := b.evalInt(v.S[1])
 	cp := b.evalInt(v.S[2])
 	if ln.Sign() == 0 && cp.Sign() == 0 {
@@ -543,7 +593,7 @@ func (b *rbuilder) sliceExpr(v *Val, t types.Type, depth int) string {
 
 var numRe = regexp.MustCompile(`\d+`)
 
-func (b *rbuilder) mapObj(t types.Type, mt *types.Map, ref *big.Int, depth int) string {
+func (b *rbuilder) mapObj(t types.Type, mt *types.Map, ref *big.Int, depth int, refTerm string) string {
 	key := "m:" + typeKey(t) + "@" + ref.String()
 	if n, ok := b.objs[key]; ok {
 		return n
@@ -557,17 +607,18 @@ func (b *rbuilder) mapObj(t types.Type, mt *types.Map, ref *big.Int, depth int) 
 		return name
 	}
 	d := b.e.comp(b.st0, mc.dom, mc.domS)
-	if !b.ms.syms[d] {
-		return name
-	}
+	domKnown := b.ms.syms[d]
 	domT := sel(d, ref.String())
-	txt, err := b.ms.evalTerm(domT)
-	if err != nil {
-		b.fail("model evaluation failed: %v", err)
-	}
-	cands := map[string]bool{"0": true, "1": true, "2": true, "3": true}
-	for _, m := range numRe.FindAllString(txt, -1) {
-		cands[m] = true
+	cands := map[string]bool{}
+	if domKnown {
+		txt, err := b.ms.evalTerm(domT)
+		if err != nil {
+			b.fail("model evaluation failed: %v", err)
+		}
+		cands = map[string]bool{"0": true, "1": true, "2": true, "3": true}
+		for _, m := range numRe.FindAllString(txt, -1) {
+			cands[m] = true
+		}
 	}
 	var keys []string
 	for c := range cands {
@@ -626,8 +677,41 @@ func (b *rbuilder) mapObj(t types.Type, mt *types.Map, ref *big.Int, depth int) 
 	// the cardinality axioms); the real map has the domain's size
 	ml := b.e.comp(b.st0, mc.ln, "(Array Int Int)")
 	if b.ms.syms[ml] {
+		if refTerm != "" && b.relevant(refTerm) {
+			b.sizeTerms = append(b.sizeTerms, sel(ml, refTerm))
+		} else {
+			b.sizeTerms = append(b.sizeTerms, sel(ml, ref.String()))
+		}
 		if l := b.evalInt(sel(ml, ref.String())); !l.IsInt64() || l.Int64() != int64(cnt) {
-			b.approx = append(b.approx, fmt.Sprintf("model length %s of a %s differs from its %d enumerated keys", l, t, cnt))
+			// the model's length exceeds the keys it determines: the remaining keys are
+			// irrelevant to the verdict, pad the real map with fresh keys so that len() agrees
+			if l.IsInt64() && l.Int64() > int64(cnt) && l.Int64()-int64(cnt) <= 64 {
+				bits, _, okT := intInfo(mt.Key())
+				base := int64(1) << 20
+				if okT && bits <= 16 {
+					base = 100
+				}
+				for i := int64(0); i < l.Int64()-int64(cnt); i++ {
+					kx := fmt.Sprint(base + i)
+					for cands[kx] {
+						base++
+						kx = fmt.Sprint(base + i)
+					}
+					kexpr := fmt.Sprintf("%s(%s)", b.typeStr(mt.Key()), kx)
+					vexpr := ""
+					if pt, isPtr := mt.Elem().Underlying().(*types.Pointer); isPtr && b.nameable(pt.Elem(), 0) {
+						vexpr = "new(" + b.typeStr(pt.Elem()) + ")"
+					} else {
+						tmp := b.fresh("v")
+						b.decls = append(b.decls, fmt.Sprintf("var %s %s", tmp, b.typeStr(mt.Elem())))
+						vexpr = tmp
+					}
+					b.fills = append(b.fills, fmt.Sprintf("%s[%s] = %s", name, kexpr, vexpr))
+				}
+				b.approx = append(b.approx, fmt.Sprintf("a %s was padded with %d keys the model does not determine (model length %s, %d determined keys)", t, l.Int64()-int64(cnt), l, cnt))
+			} else {
+				b.approx = append(b.approx, fmt.Sprintf("model length %s of a %s differs from its %d enumerated keys", l, t, cnt))
+			}
 		}
 	}
 	return name
@@ -660,8 +744,178 @@ func (b *rbuilder) ifaceExpr(v *Val, t types.Type, depth int) string {
 		b.qualImport("errors", "errors")
 		return `rp_errors.New("govc-replay: some error")`
 	}
+	if n := b.stubFor(t); n != "" {
+		return "&" + n + "{}"
+	}
 	b.approx = append(b.approx, fmt.Sprintf("non-nil %s value of an unknown dynamic type left nil", t))
 	return ""
+}
+
+// stubFor: a generated type implementing interface t whose methods replay, in call order, the
+// results the model chose for the calls of that method (scalar results only).
+func (b *rbuilder) stubFor(t types.Type) string {
+	it, ok := t.Underlying().(*types.Interface)
+	if !ok || it.NumMethods() == 0 {
+		return ""
+	}
+	name := "rpStub_" + regexp.MustCompile(`[^A-Za-z0-9_]`).ReplaceAllString(typeKey(t), "_")
+	if _, have := b.stubs[name]; have {
+		return name
+	}
+	for i := 0; i < it.NumMethods(); i++ {
+		m := it.Method(i)
+		if !m.Exported() && m.Pkg() != b.pkg {
+			return ""
+		}
+		sig := m.Type().(*types.Signature)
+		for j := 0; j < sig.Params().Len(); j++ {
+			if !b.nameable(sig.Params().At(j).Type(), 0) {
+				return ""
+			}
+		}
+		for j := 0; j < sig.Results().Len(); j++ {
+			if !b.nameable(sig.Results().At(j).Type(), 0) {
+				return ""
+			}
+		}
+	}
+	if b.stubs == nil {
+		b.stubs = map[string]types.Type{}
+	}
+	b.stubs[name] = t
+	b.stubOrder = append(b.stubOrder, name)
+	return name
+}
+
+// scalarExpr: Go expression for a scalar model value (results of stubbed calls); ok=false if
+// the type cannot be produced
+func (b *rbuilder) scalarExpr(v *Val, t types.Type) (string, bool) {
+	switch v.K {
+	case KBool:
+		if b.evalBool(v.S[0]) {
+			return b.typeStr(t) + "(true)", true
+		}
+		return b.typeStr(t) + "(false)", true
+	case KIface:
+		isErr := types.Identical(t.Underlying(), types.Universe.Lookup("error").Type().Underlying())
+		tag := b.evalInt(v.S[0])
+		if tag.Sign() == 0 {
+			return "nil", true
+		}
+		if !isErr {
+			return "", false
+		}
+		val := b.evalInt(v.S[1])
+		if g, ok := b.gByAddr[val.String()]; ok && g.Object() != nil && (g.Object().Exported() || g.Pkg.Pkg == b.pkg) {
+			q := b.qual(g.Pkg.Pkg)
+			if q != "" {
+				q += "."
+			}
+			return q + g.Name(), true
+		}
+		b.qualImport("errors", "errors")
+		return `rp_errors.New("govc-replay: some error")`, true
+	case KInt:
+		switch u := t.Underlying().(type) {
+		case *types.Basic:
+			if u.Kind() == types.UnsafePointer || isFloat(t) {
+				return "", false
+			}
+			if isString(t) {
+				id := b.evalInt(v.S[0]).String()
+				sv, ok := b.strByID[id]
+				if !ok && id != "0" {
+					sv = "s" + id
+				}
+				return fmt.Sprintf("%s(%q)", b.typeStr(t), sv), true
+			}
+			return fmt.Sprintf("%s(%s)", b.typeStr(t), b.evalInt(v.S[0]).String()), true
+		case *types.Pointer, *types.Map, *types.Chan, *types.Signature:
+			if b.evalInt(v.S[0]).Sign() == 0 {
+				return "nil", true
+			}
+			return "", false
+		}
+	case KSlice:
+		if b.evalInt(v.S[1]).Sign() == 0 {
+			return "nil", true
+		}
+		return "", false
+	}
+	return "", false
+}
+
+// stubSource generates the stub types and the initialisation of their result queues.
+func (b *rbuilder) stubSource() string {
+	var src bytes.Buffer
+	var init bytes.Buffer
+	for _, name := range b.stubOrder {
+		t := b.stubs[name]
+		it := t.Underlying().(*types.Interface)
+		fmt.Fprintf(&src, "\n// %s stands in for a value of interface %s whose dynamic type the model leaves open;\n// each method returns, in call order, what the model chose for that call\ntype %s struct{}\n", name, t, name)
+		for i := 0; i < it.NumMethods(); i++ {
+			m := it.Method(i)
+			sig := m.Type().(*types.Signature)
+			var ps, rs []string
+			for j := 0; j < sig.Params().Len(); j++ {
+				pt := sig.Params().At(j).Type()
+				if sig.Variadic() && j == sig.Params().Len()-1 {
+					ps = append(ps, fmt.Sprintf("p%d ...%s", j, b.typeStr(pt.(*types.Slice).Elem())))
+				} else {
+					ps = append(ps, fmt.Sprintf("p%d %s", j, b.typeStr(pt)))
+				}
+			}
+			for j := 0; j < sig.Results().Len(); j++ {
+				rs = append(rs, b.typeStr(sig.Results().At(j).Type()))
+			}
+			rsig := ""
+			if len(rs) > 0 {
+				rsig = " (" + strings.Join(rs, ", ") + ")"
+			}
+			label := fmt.Sprintf("%s.%s", t, m.Name())
+			if len(rs) == 0 {
+				fmt.Fprintf(&src, "func (%s) %s(%s) {}\n", name, m.Name(), strings.Join(ps, ", "))
+				continue
+			}
+			q := fmt.Sprintf("rpQ_%s_%s", name, m.Name())
+			fmt.Fprintf(&src, "var %s []func()%s\nfunc (%s) %s(%s)%s {\n\tif len(%s) == 0 {\n\t\tpanic(rpNeedsIface{%q})\n\t}\n\tf := %s[0]\n\t%s = %s[1:]\n\treturn f()\n}\n",
+				q, rsig, name, m.Name(), strings.Join(ps, ", "), rsig, q, label, q, q, q)
+			// the calls of this method that are executed in the model, in program order
+			for _, rec := range b.e.callLog {
+				if rec.method != m.Name() || !types.Identical(rec.iface, t) {
+					continue
+				}
+				if !b.relevant(rec.reach) || !b.evalBool(rec.reach) {
+					continue
+				}
+				var vals []*Val
+				if rec.res.K == KTuple {
+					vals = rec.res.F
+				} else {
+					vals = []*Val{rec.res}
+				}
+				if len(vals) != sig.Results().Len() {
+					break
+				}
+				var xs []string
+				okAll := true
+				for j, v := range vals {
+					x, ok := b.scalarExpr(v, sig.Results().At(j).Type())
+					if !ok {
+						okAll = false
+						break
+					}
+					xs = append(xs, x)
+				}
+				if !okAll {
+					break // later calls cannot be replayed either
+				}
+				fmt.Fprintf(&init, "\t%s = append(%s, func()%s { return %s })\n", q, q, rsig, strings.Join(xs, ", "))
+			}
+		}
+	}
+	fmt.Fprintf(&src, "\nfunc rpInitStubs() {\n%s}\n", init.String())
+	return src.String()
 }
 
 func (b *rbuilder) qualImport(path, name string) {
@@ -758,6 +1012,33 @@ func (w *World) replayObligation(rep *FuncReport, o *Obligation, root string, ti
 		}
 		names = append(names, n)
 		b.assign(fmt.Sprintf("in.p%d", i), fr.vals[p], p.Type(), 0)
+	}
+	// prefer a small model: bound every length met while building and rebuild
+	if len(b.sizeTerms) > 0 && !b.refined {
+		var cs []string
+		seenT := map[string]bool{}
+		for _, t := range b.sizeTerms {
+			if !seenT[t] {
+				seenT[t] = true
+				cs = append(cs, fmt.Sprintf("(<= %s 6)", t))
+			}
+		}
+		okRef := ms.refine(append(cs, b.pins...))
+		if os.Getenv("GOVC_REPLAY_DEBUG") != "" {
+			fmt.Fprintf(os.Stderr, "replay-debug: refine(%v) = %v\n", cs, okRef)
+		}
+		if okRef {
+			nb := &rbuilder{e: e, w: w, ms: ms, pkg: b.pkg, imports: map[string]string{}, objs: map[string]string{},
+				st0: b.st0, typeByID: b.typeByID, gByAddr: b.gByAddr, strByID: b.strByID, refined: true}
+			for i, p := range fn.Params {
+				nb.assign(fmt.Sprintf("in.p%d", i), fr.vals[p], p.Type(), 0)
+			}
+			// type strings of the parameters must be registered with the new builder's imports
+			for _, p := range fn.Params {
+				nb.typeStr(p.Type())
+			}
+			b = nb
+		}
 	}
 	if o.Kind != "post" && len(b.approx) > 0 {
 		return replayResult{Note: "replay not attempted: the input could only be built approximately (" + b.approx[0] + ")", Approx: b.approx}
@@ -865,6 +1146,7 @@ func (w *World) replayObligation(rep *FuncReport, o *Obligation, root string, ti
 		}
 		callBody = fmt.Sprintf("%s := %s(%s)\n\t\t\treturn []interface{}{%s}", strings.Join(rs, ", "), callee, strings.Join(args, ", "), strings.Join(boxed, ", "))
 	}
+	stubSrc := b.stubSource()
 	var src bytes.Buffer
 	fmt.Fprintf(&src, "// Code generated by govc: replay of the counterexample for obligation %s\n", o.Name)
 	fmt.Fprintf(&src, "// clause: %s\n", strings.ReplaceAll(o.Desc, "\n", " "))
@@ -893,7 +1175,7 @@ func (w *World) replayObligation(rep *FuncReport, o *Obligation, root string, ti
 		n := strings.Fields(strings.TrimPrefix(d, "var "))[0]
 		fmt.Fprintf(&src, "\t_ = %s\n", n)
 	}
-	fmt.Fprintf(&src, "\treturn in\n}\n\nfunc TestGovcReplay(t *testing.T) {\n\to := rpBuild()\n\tc := rpBuild()\n\t_ = o\n")
+	fmt.Fprintf(&src, "\treturn in\n}\n%s\nfunc TestGovcReplay(t *testing.T) {\n\to := rpBuild()\n\tc := rpBuild()\n\t_ = o\n\trpInitStubs()\n", stubSrc)
 	var olds, curs []string
 	for i := range fn.Params {
 		olds = append(olds, fmt.Sprintf("&o.p%d", i))
